@@ -5,11 +5,11 @@ package main
 
 import (
 	"bytes"
-	"sort"
-	"runtime"
 	"context"
 	"fmt"
 	"math/rand"
+	"runtime"
+	"sort"
 	"strings"
 	"sync"
 	"time"
@@ -342,12 +342,12 @@ func init() {
 		gen: func(rng *rand.Rand, tier string, n int, emit func(string)) {
 			for _, s := range []string{
 				"320700016100010a0b400200016202000162020001", // qos1 + puback + unknown pubrels
-				"340600017100010a62020001" + "62020001",       // qos2 then pubrel twice
-				"9000",                                        // short SUBACK
-				"30ffffffffffffffffff7f",                      // endless length
-				"308080808001",                                // five-byte length
-				"3003000100" + "3003000161",                   // NUL topic then valid publish
-				"360500016100" + "01",                         // QoS 3
+				"340600017100010a62020001" + "62020001",      // qos2 then pubrel twice
+				"9000",                                       // short SUBACK
+				"30ffffffffffffffffff7f",                     // endless length
+				"308080808001",                               // five-byte length
+				"3003000100" + "3003000161",                  // NUL topic then valid publish
+				"360500016100" + "01",                        // QoS 3
 				"f000", "1000", "d001", "2002000" + "0",
 			} {
 				emit("1 " + s)
